@@ -19,7 +19,7 @@ fn post(a: usize, amt: Option<VE>, bal: Option<VE>) -> Posting {
     Posting { account: a, amount: amt, cost: None, lot: None, balance: bal }
 }
 fn txn(d: i32, posts: Vec<Posting>) -> Entry {
-    Entry::Txn(Txn { effective: None, date: d, posts })
+    Entry::Txn(Txn { effective: None, date: d, posts, head: Head::default() })
 }
 
 fn fixed_cases() -> Vec<Vec<Entry>> {
@@ -47,7 +47,7 @@ fn fixed_cases() -> Vec<Vec<Entry>> {
     // whole-history report does not; 0.004 USD rounds to 0.00 and may be shown
     for dp in [0u32, 2] {
         out.push(vec![
-            Entry::Format(4, dp),
+            Entry::Format(4, dp, FmtLit::default()),
             txn(1, vec![post(0, Some(lit(1005, 3, 4)), None), post(2, Some(lit(-1005, 3, 4)), None)]),
             txn(2, vec![post(0, Some(lit(1015, 3, 4)), None), post(2, Some(lit(-1015, 3, 4)), None)]),
             txn(3, vec![post(0, Some(lit(-2016, 3, 4)), None), post(2, Some(lit(2016, 3, 4)), None)]),
@@ -298,6 +298,7 @@ fn emit(sh: &mut Shards, st: &mut Stats, scratch: &cli::Scratch, entries: &[Entr
     st.add("shape:omitted", s.omitted as u64);
     st.add("shape:assigned", s.assigned as u64);
     st.add("shape:format_decl", s.formats as u64);
+    shape_text_stats(st, &s);
     let mut variants: Vec<(&str, ReportObs)> = Vec::new();
     let mut harness_error: Option<String> = None;
     if let Some(api) = api {
@@ -353,7 +354,8 @@ fn emit(sh: &mut Shards, st: &mut Stats, scratch: &cli::Scratch, entries: &[Entr
 pub fn run(o: &Opts) {
     let mut st = Stats::new();
     let mut sh = Shards::new(&o.out, o.shards, &header("Classify_C04"));
-    st.rule = "generated ledgers biased to be accepted (1-6 transactions, omitted/assigned/asserted postings, costs, 1-3 of 5 commodities, format declarations with 0/2/3 places and 3-place amounts, dates that repeat and go backwards) + fixed boundary ledgers; per accepted ledger up to 36 (start, end) pairs over {unbounded, 3 days before the first date, each transaction date, each date + 1, 5 days after the last}, inverted and empty ranges included; Ledger::balance and Ledger::postings in process, and `okane balance --start --end` / `okane register` run in process on a scratch file and parsed back; non-trivial = the ledger is accepted and has a transaction; distinct by ledger text".into();
+    st.rule = "generated ledgers biased to be accepted (1-6 transactions, omitted/assigned/asserted postings, costs, 1-3 of 5 commodities, format declarations with 0-6 places and 3-place amounts, dates that repeat and go backwards) + fixed boundary ledgers; per accepted ledger up to 36 (start, end) pairs over {unbounded, 3 days before the first date, each transaction date, each date + 1, 5 days after the last}, inverted and empty ranges included; Ledger::balance and Ledger::postings in process, and `okane balance --start --end` / `okane register` run in process on a scratch file and parsed back; non-trivial = the ledger is accepted and has a transaction; distinct by ledger text".into();
+    st.rule = format!("{}; {}", st.rule, TEXT_SHAPES_RULE);
     st.assumptions.push("literal mantissas below 10^7 with scale <= 3: every intermediate Decimal is exact".into());
     st.assumptions.push("no commodity conversion (-X): conversion is C09/C10".into());
     let scratch = cli::Scratch::new("c04");
@@ -363,7 +365,8 @@ pub fn run(o: &Opts) {
         emit(&mut sh, &mut st, &scratch, &es, &mut fr, "corpus");
     }
     if !replay {
-        for es in fixed_cases() {
+        for (n, mut es) in fixed_cases().into_iter().enumerate() {
+            vary_shapes_nth(&mut es, n);
             emit(&mut sh, &mut st, &scratch, &es, &mut fr, "fixed");
         }
         let mut r = Rng::new(o.seed, 104);
